@@ -179,8 +179,37 @@ def run(ctx):
                 ctx.violation('C11: ' + msg, rep)
                 return
             ctx.count('programs:corpus-' + name)
+    # (c) two sessions in one process with mpc.threshold re-assigned in between (mpc.shutdown(); mpc.threshold = t2;
+    #     mpc.start()): sharings of the second session must have degree <= t2 and the results must not change
+    for (m, t1, t2) in [(3, 1, 0), (5, 2, 1), (5, 1, 2), (4, 1, 0)] + ([(5, 2, 0), (7, 3, 1), (3, 0, 1)] if ctx.thorough else []):
+        for name in ('arith', 'bits_sort'):
+            seed = rng.randrange(10**9)
+            rep = {'kind': 'two-sessions', 'program': name, 'm': m, 't': t1, 't2': t2, 'no_prss': False, 'seed': seed}
+            msg = two_sessions(ctx, name, m, t1, t2, seed, lines, exps, metas)
+            ctx.count('programs:two-sessions')
+            if msg:
+                ctx.violation('C11: ' + msg, rep)
+                return
     model = common.LeanDriver('Share').run(lines)
     ctx.compare('share consistency (independent interpolation vs MpycV.Share.consistentB)', exps, model, metas)
+
+
+def two_sessions(ctx, name, m, t1, t2, seed, lines, exps, metas):
+    prog = programs.PROGRAMS[name][0]()
+    net = SimNet(m, t1, no_prss=False, seed=seed, sched=Scheduler(seed, 'random'), max_steps=2_000_000)
+    try:
+        r1 = net.run(prog)
+        net.new_session()
+        net.set_threshold(t2)
+        with sharemon.ShareMonitor(net) as mon:
+            r2 = net.run(programs.PROGRAMS[name][0]())
+    except (Deadlock, PartyError) as exc:
+        return f'two sessions of {name} (threshold {t1} then {t2}) do not run: {str(exc)[:300]}'
+    if any(r != r2[0] for r in r2):
+        return f'second session (threshold {t1} -> {t2}) of {name}: parties disagree on the results'
+    if repr(r2[0]) != repr(r1[0]):
+        return f'second session (threshold {t1} -> {t2}) of {name}: results differ from the first session'
+    return check_run(ctx, net, mon, None, m, t2, lines, exps, metas, f'{name} second session m={m} t={t1}->{t2} seed {seed}')
 
 
 def check_run(ctx, net, mon, res, m, t, lines, exps, metas, meta):
@@ -244,6 +273,9 @@ def search(ctx):
 def replay(ctx, data):
     ctx._max_lines = 0
     import random
+    if data['kind'] == 'two-sessions':
+        msg = two_sessions(ctx, data['program'], data['m'], data['t'], data['t2'], data['seed'], [], [], [])
+        return msg is None, msg or 'ok'
     if data['kind'] == 'corpus':
         prog = programs.PROGRAMS[data['program']][0]()
         net = SimNet(data['m'], data['t'], no_prss=data['no_prss'], seed=data['seed'], sched=Scheduler(data['seed'], 'random'))
